@@ -372,8 +372,11 @@ def strip_lifetimes(ty):
     return re.sub(r"'[a-z_]+ ?", "", ty)
 
 
-def describe(body, op, depth=0):
-    """Canonical, name-independent description of an operand's origin."""
+def describe(body, op, depth=0, names=False):
+    """Canonical description of an operand's origin.  names=True stops at user-named variables
+    (var(name)) instead of expanding their single definition."""
+    if names:
+        return _describe_named(body, op)
     if depth > 12:
         return "..."
     k = op_const(op) if isinstance(op, dict) and isinstance(op.get("k"), dict) and "ty" in op.get("k", {}) else None
@@ -442,3 +445,51 @@ def _desc_local(body, l, depth):
     if k == "agg":
         return "%s{%s}" % (r.get("vname") or r.get("ak"), ", ".join(describe(body, o, depth + 1) for o in r["ops"]))
     return k
+
+
+def _describe_named(body, op, depth=0):
+    k = op_const(op) if isinstance(op, dict) and isinstance(op.get("k"), dict) and "ty" in op.get("k", {}) else None
+    if k is not None or depth > 10:
+        return describe(body, op, 12 if depth > 10 else 0)
+    p = op_place(op) if ("c" in op or "m" in op) else (op if "l" in op else None)
+    if p is None:
+        return "?"
+    l = p["l"]
+    nm = body.local_name(l)
+    if nm and not p["p"]:
+        return "var(%s)" % nm
+    if p["p"]:
+        base = "var(%s)" % nm if nm else _describe_named(body, {"l": l, "p": []}, depth + 1)
+        for e in p["p"]:
+            if isinstance(e, dict) and "f" in e:
+                base += "." + str(e.get("n", e["f"]))
+            elif isinstance(e, dict) and "i" in e:
+                base += "[" + _describe_named(body, {"l": e["i"], "p": []}, depth + 1) + "]"
+            elif isinstance(e, dict) and "dc" in e:
+                base += " as " + str(e.get("n"))
+        return base
+    ds = body.defs(l)
+    if len(ds) != 1:
+        return "var(_%d)" % l
+    bb, idx, kind, payload = ds[0]
+    if kind == "arg":
+        return _arg_desc(body, l)
+    if kind == "call":
+        from .common import strip_generics
+        n = strip_generics(payload["callee"].get("def", "?"))
+        return "%s(%s)" % (n.split("::")[-1], ", ".join(_describe_named(body, a, depth + 1) for a in payload["args"]))
+    if kind != "assign":
+        return "partial"
+    r = payload
+    kk = r["k"]
+    if kk in ("use", "cast"):
+        return _describe_named(body, r["op"], depth + 1)
+    if kk in ("ref", "rawptr"):
+        return _describe_named(body, r["place"], depth + 1)
+    if kk == "binop":
+        return "%s(%s, %s)" % (r["op"].replace("WithOverflow", ""), _describe_named(body, r["l"], depth + 1), _describe_named(body, r["r"], depth + 1))
+    if kk == "unop":
+        return "%s(%s)" % (r["op"], _describe_named(body, r["a"], depth + 1))
+    if kk == "discr":
+        return "discr(%s)" % _describe_named(body, r["place"], depth + 1)
+    return kk
